@@ -13,6 +13,7 @@ import (
 	"github.com/cube2222/octosql/execution/files"
 	"github.com/cube2222/octosql/octosql"
 	"github.com/cube2222/octosql/physical"
+	"github.com/cube2222/octosql/verifhook"
 )
 
 type DatasourceExecuting struct {
@@ -77,6 +78,7 @@ func (d *DatasourceExecuting) Run(ctx ExecutionContext, produce ProduceFn, metaS
 			if len(job.lines) == batchSize {
 				select {
 				case outChanAvailableTokens <- struct{}{}:
+					verifhook.JSONReader(job.lines[0], len(job.lines))
 					parserWorkReceiveChannel <- job
 					linesRead += len(job.lines)
 				case <-localCtx.Done():
@@ -96,6 +98,7 @@ func (d *DatasourceExecuting) Run(ctx ExecutionContext, produce ProduceFn, metaS
 		if len(job.lines) > 0 {
 			select {
 			case outChanAvailableTokens <- struct{}{}:
+				verifhook.JSONReader(job.lines[0], len(job.lines))
 				parserWorkReceiveChannel <- job
 				linesRead += len(job.lines)
 			case <-localCtx.Done():
